@@ -74,7 +74,7 @@ def strategy(tier):
                 cat_cols=("b",),
             )
         else:
-            opts = gen.TreeOpts(max_depth=4 if thorough else 3, bag_ranges=("N", "S"))
+            opts = gen.TreeOpts(max_depth=4 if thorough else 3, bag_ranges=("N", "S"), cat_cols=("s", "s", "b"))
         spec, focus = draw(gen.specs_and_focus(opts))
         if not _qbearing(spec):
             spec = {"k": "Branch", "values": [{"k": "Sum", "q": {"t": "num", "col": "z", "fl": opts.flavours[0]}}, spec]}
